@@ -158,6 +158,9 @@ type MyMaskCase struct {
 	// PrepFirst: the PREPARE statements of all reads that have one are sent before anything is executed (a later
 	// PREPARE under a name that is in use replaces the statement, as in MySQL)
 	PrepFirst bool `json:"prep_first,omitempty"`
+	// SideSpell[i]: how the configuration file spells plaintext_side of column i (masked columns; absent = as
+	// documented), see spelledYAML
+	SideSpell []Spell `json:"side_spell,omitempty"`
 }
 
 // ---------------------------------------------------------------------------------------------
@@ -427,6 +430,7 @@ func genMyMaskCase(t *rapid.T) MyMaskCase {
 		c.Reads = append(c.Reads, rd)
 	}
 	c.PrepFirst = rapid.Bool().Draw(t, "prep_first")
+	c.SideSpell = genSideSpells(t, len(c.Cols))
 	return c
 }
 
@@ -758,7 +762,17 @@ func CheckMaskMySQL(c MyMaskCase) (vs hx.Vs, nontrivial bool, classes []string) 
 	}
 	tables := []myprog.TableSpec{{Name: myMaskTable, Configured: true, Cols: append([]myprog.ColSpec{{Name: "id", Kind: myprog.KPlainInt}}, cols...)}}
 	tb := tables[0]
-	yaml := myprog.SchemaYAML(tables)
+	meant := make([]string, len(cols))
+	for i := range cols {
+		meant[i] = cols[i].MaskSide // "" for columns that are not masked
+	}
+	yaml := spelledYAML(func(k string) { cl[k] = true }, c.SideSpell, meant, true, func(sides []string) string {
+		written := append([]myprog.ColSpec(nil), cols...)
+		for i := range written {
+			written[i].MaskSide = sides[i]
+		}
+		return myprog.SchemaYAML([]myprog.TableSpec{{Name: myMaskTable, Configured: true, Cols: append([]myprog.ColSpec{{Name: "id", Kind: myprog.KPlainInt}}, written...)}})
+	})
 	defs := myprog.Defs(tables)
 	if debug {
 		fmt.Printf("CONFIG\n%s\n", yaml)
@@ -1652,7 +1666,7 @@ func myCheckCell(vs *hx.Vs, cl map[string]bool, w *fix.World, c MyMaskCase, col 
 
 func TestMaskSessionsMySQL(t *testing.T) {
 	masks, typed := myCombos()
-	R.Rule("TestMaskSessionsMySQL", fmt.Sprintf("one MySQL table with 1-3 masked columns drawn from the %d combinations MapTableSchemaStoreFromConfig(UseMySQL) accepts (acrastruct / acrablock / default envelope, untyped / data_type str / bytes by name or MySQL type id, failure policies, client_id absent / the connection's / another identity's) with generated pattern, side and window (0, inside, len-1, len, len+1, absolute; relative to the value of row 0) and 0-3 plain (VARCHAR, BLOB, INT) or encrypted (untyped, %d typed str/bytes combinations) columns at generated positions; 1-3 rows of generated values (unique markers, bytes >= 0x80, UTF-8, tag runs, bogus container headers, copies of the pattern, whole envelopes of alice / bobby, SQL-lexical bytes, numbers (also spelled as numeric literals / sent as integer parameters), the empty value, NULL; text-safe parts for str columns) written by alice through acra's real MySQL proxy: INSERT (column list in table or reverse order / no list / SET form / multi-row), REPLACE and INSERT ... ON DUPLICATE KEY UPDATE on new and existing keys, UPDATE over a decoy row; COM_QUERY with literals in the nine MySQL spellings acra's grammar reads or COM_STMT_PREPARE + COM_STMT_EXECUTE with generated parameter types (literals mixed in), with or without CLIENT_DEPRECATE_EOF (with VERIF_C11_LONGDATA also parameters supplied by COM_STMT_SEND_LONG_DATA - the proposed open finding long-data-parameter:mysql); then alice, bobby and carol each read everything in a session of their own over the same fake database, text and / or binary protocol, star / list in table or reverse order / a subset of the columns / a column twice / aliases, or through the SQL syntax for prepared statements sent with COM_QUERY: PREPARE <name> FROM '<select>' | the same in double quotes | @variable (SET before), EXECUTE <name> [USING @k] (once or twice), DEALLOCATE | DROP PREPARE <name>, with statement names from a small pool spelled anew at every use (as written / lower / upper case, back-quoted), names reused after DEALLOCATE, prepared again without DEALLOCATE, all PREPAREs sent before the first EXECUTE; the statement that runs is the one MySQL has under the name at that moment. Writes of one row also as SET @masked__<column> = <literal> (one SET or one per variable, variable names in lower or upper case); PREPARE <name> FROM 'INSERT | REPLACE | UPDATE with placeholders'; EXECUTE <name> USING the variables. (With VERIF_C11_SQLPREP the shapes of proposed fixes 02-04: capitals in the name of the variable that holds the statement text, an empty protected value in a SET of several variables, _binary literals in SET.) Oracle per cell, by the cell's own column (its owner = the column's client_id or the writing connection): stored form = clear window + one container of the configured kind that the owner's keys open (library) to the rest, whole value inside when len <= window; owner reads the original; the others read exactly window||pattern / pattern||window / pattern; no 4-byte slice of the hidden part and no 8-byte slice of the stored envelope in the cell; no marker of a hidden part (raw, hex, base64, octal) and no 16-byte slice of a stored envelope anywhere in the bytes a non-owner received; NULL stays NULL, the empty value stays empty; plain neighbours unchanged for everybody, encrypted neighbours readable by their owner, never in plaintext for others, untyped ones as stored; no statement error, no handler panic, no closed session. Non-trivial = some masked cell with 0 < window < len (every case is read by two readers that do not own it)", len(masks), len(typed)))
+	R.Rule("TestMaskSessionsMySQL", fmt.Sprintf("one MySQL table with 1-3 masked columns drawn from the %d combinations MapTableSchemaStoreFromConfig(UseMySQL) accepts (acrastruct / acrablock / default envelope, untyped / data_type str / bytes by name or MySQL type id, failure policies, client_id absent / the connection's / another identity's) with generated pattern, side and window (0, inside, len-1, len, len+1, absolute; relative to the value of row 0) and 0-3 plain (VARCHAR, BLOB, INT) or encrypted (untyped, %d typed str/bytes combinations) columns at generated positions; 1-3 rows of generated values (unique markers, bytes >= 0x80, UTF-8, tag runs, bogus container headers, copies of the pattern, whole envelopes of alice / bobby, SQL-lexical bytes, numbers (also spelled as numeric literals / sent as integer parameters), the empty value, NULL; text-safe parts for str columns) written by alice through acra's real MySQL proxy: INSERT (column list in table or reverse order / no list / SET form / multi-row), REPLACE and INSERT ... ON DUPLICATE KEY UPDATE on new and existing keys, UPDATE over a decoy row; COM_QUERY with literals in the nine MySQL spellings acra's grammar reads or COM_STMT_PREPARE + COM_STMT_EXECUTE with generated parameter types (literals mixed in), with or without CLIENT_DEPRECATE_EOF (with VERIF_C11_LONGDATA also parameters supplied by COM_STMT_SEND_LONG_DATA - the proposed open finding long-data-parameter:mysql); then alice, bobby and carol each read everything in a session of their own over the same fake database, text and / or binary protocol, star / list in table or reverse order / a subset of the columns / a column twice / aliases, or through the SQL syntax for prepared statements sent with COM_QUERY: PREPARE <name> FROM '<select>' | the same in double quotes | @variable (SET before), EXECUTE <name> [USING @k] (once or twice), DEALLOCATE | DROP PREPARE <name>, with statement names from a small pool spelled anew at every use (as written / lower / upper case, back-quoted), names reused after DEALLOCATE, prepared again without DEALLOCATE, all PREPAREs sent before the first EXECUTE; the statement that runs is the one MySQL has under the name at that moment. Writes of one row also as SET @masked__<column> = <literal> (one SET or one per variable, variable names in lower or upper case); PREPARE <name> FROM 'INSERT | REPLACE | UPDATE with placeholders'; EXECUTE <name> USING the variables. (With VERIF_C11_SQLPREP the shapes of proposed fixes 02-04: capitals in the name of the variable that holds the statement text, an empty protected value in a SET of several variables, _binary literals in SET.) In one case of three the configuration file spells plaintext_side of the masked columns the hand-written way (Capitalised / UPPER / alternating case, quoted, blanks inside the quotes): a file MapTableSchemaStoreFromConfig(UseMySQL) accepts is the configuration of all sessions of the case and the columns are judged by the side the spelling MEANS, a file it refuses (a correct outcome) is replaced by the documented spelling. Oracle per cell, by the cell's own column (its owner = the column's client_id or the writing connection): stored form = clear window + one container of the configured kind that the owner's keys open (library) to the rest, whole value inside when len <= window; owner reads the original; the others read exactly window||pattern / pattern||window / pattern; no 4-byte slice of the hidden part and no 8-byte slice of the stored envelope in the cell; no marker of a hidden part (raw, hex, base64, octal) and no 16-byte slice of a stored envelope anywhere in the bytes a non-owner received; NULL stays NULL, the empty value stays empty; plain neighbours unchanged for everybody, encrypted neighbours readable by their owner, never in plaintext for others, untyped ones as stored; no statement error, no handler panic, no closed session. Non-trivial = some masked cell with 0 < window < len (every case is read by two readers that do not own it)", len(masks), len(typed)))
 	hx.Checks(50, 1200)
 	rapid.Check(t, func(rt *rapid.T) {
 		c := genMyMaskCase(rt)
